@@ -6,6 +6,17 @@ COMMON_TB = [
     "rustc/cargo, python translators, canonicalisation and diff code of the harness",
 ]
 
+MARKET_TB = [
+    "market model: the proposal CID (blake2b of the normalised proposal) is idealised as the proposal itself (hash collisions out of scope); piece CID / size / label are folded into one tag",
+    "market model: signature authentication, the static bounds of validate_deal (label, piece, duration, price/collateral upper bounds, provider collateral lower bound), miner control addresses, burn / notify / datacap sends are environment inputs; the harness derives them from how it built each message",
+    "market model: provider_sectors is represented by a `mapped` flag on the deal state; DealState.slash_epoch is not modelled (no method stores a value other than -1; the harness oracle checks this on every stored state)",
+]
+MARKET_ASSUMPTIONS = [
+    "OnMinerSectorsTerminate carries epoch = current epoch (its only caller, miner::request_terminate_deals, passes rt.curr_epoch()); the model's step passes the state's epoch",
+    "verified deals are exercised in the model only (datacap answers are environment flags); the correspondence runs use verified_deal = false (datacap side effects belong to C09)",
+    "an internal error in the middle of one deal's processing inside SettleDealPayments (possible only with inconsistent balance tables) leaves partial mutations in the code; the model treats that deal as failed without effect",
+]
+
 PROPS = {
     "C16": {
         "lean_targets": ["BA.Props.C16"],
@@ -17,6 +28,15 @@ PROPS = {
         "assumptions": [
             "chain epochs are non-negative (collect_after_delay)",
             "a voucher naming the same merge lane twice subtracts that lane once per list entry (code and model agree; exhibited as an example, recorded in notes)",
+        ],
+    },
+    "C07": {
+        "lean_targets": ["BA.Props.C07"],
+        "harness": "c07",
+        "translators": ["extract_constants.py"],
+        "trusted_base": COMMON_TB + MARKET_TB,
+        "assumptions": MARKET_ASSUMPTIONS + [
+            "chain epochs are non-negative and deal start epochs are therefore >= 0 (the sentinel -1 of last_updated_epoch is not a real epoch)",
         ],
     },
 }
